@@ -103,6 +103,15 @@ def check(ctx):
             bad = [b for b in runs if ris.dominates(nonexcl_t, b)]
             ctx.check(not bad, "C04.a", "%s:no-safe-run-on-nonexclusive-arm" % rk, ris.loc(sb), "",
                       "non-exclusive arm uses System::run (which applies deferred commands before the cleanup)")
+            # every safe System::run (which applies the system's deferred commands, and flushes the world for an exclusive
+            # system) anywhere in the function is preceded on every path by the cleanup having been queued or called: a run
+            # outside the two arms (a "fast path") would let the run's own commands execute inside the event window
+            for r_ in runs:
+                w_ = lib.path_between_avoiding(ris, [0], [r_], queues + calls)
+                ctx.check(w_ is None, "C04.a", "%s:no-deferred-applying-run-before-cleanup" % rk, ris.loc(r_),
+                          "System::run is reached only after the cleanup was queued or called",
+                          "a path reaches System::run (which applies / flushes the run's own commands) before the cleanup was queued or called",
+                          lib.render_path(ris, w_) if w_ else None)
             # apply_deferred never before cleanup anywhere
             for a in applies:
                 ctx.check(any(ris.dominates(c, a) for c in calls), "C04.a", "%s:apply_deferred-after-cleanup" % rk, ris.loc(a),
@@ -133,7 +142,7 @@ def check(ctx):
                 exc = k
         if counts == {1}:
             ctx.ok("C04.b", key, "%s:%d" % (body.file, body.line), "every returning path consumes the cleanup exactly once")
-        elif exc and counts == {0, 1} and zero_only_on_taken_none(body, L, res):
+        elif exc and counts == {0, 1} and zero_only_on_taken_none(body, L, res) and exception_premise_holds(ctx, exc):
             ctx.ok("C04.b", key, "%s:%d" % (body.file, body.line), "exception %s: %s" % (exc, EXCEPTIONS[exc]))
             ctx.notes.append("exception applied: %s - %s" % (exc, EXCEPTIONS[exc]))
         else:
@@ -262,6 +271,21 @@ def stored_callbacks(prog):
                                             if a3 and a3["kind"] == "closure" and prog.body(a3["closure"]) is not None:
                                                 out.append(prog.body(a3["closure"]))
     return list({c.path: c for c in out}.values())
+
+
+def exception_premise_holds(ctx, exc):
+    """the `once` exception (the already-taken arm drops the cleanup) is sound only while that arm is infeasible, i.e. while
+    the first run despawns the reactor entity and revokes its triggers on every path (C15.b) - otherwise a second delivery
+    reaches the arm with the reacting flags set and never clears them"""
+    if "once" not in exc:
+        return True
+    import c15
+    sub = core.sub_obligations(ctx, c15)
+    b = [o for o in sub.obligations if o["rule"] == "C15.b"]
+    ok = bool(b) and all(o["ok"] for o in b)
+    if not ok:
+        ctx.notes.append("exception %s NOT applied: its premise C15.b does not hold (%s)" % (exc, [o["key"] for o in b if not o["ok"]][:3]))
+    return ok
 
 
 def zero_only_on_taken_none(body, L, res):
